@@ -364,9 +364,10 @@ type examiner struct {
 	out   []finding
 	gs    []any // Get on the simple form
 	gsc   []any // canonical (it is simple already)
-	order bool
-	locs  [][]string
-	locsK bool // locs computed
+	order  bool // order is defined: see ordered()
+	orderK bool
+	locs   [][]string
+	locsK  bool // locs computed
 }
 
 func (e *examiner) add(eval, repr, kind, exp, obs string) {
@@ -377,10 +378,46 @@ func (e *examiner) panicked(eval, repr string, pv any) {
 	e.add(eval, repr, "panic:"+gens.JPPanicKind(pv), "a result", fmt.Sprintf("panic: %v", pv))
 }
 
+// ordered reports whether the order of the results is defined: the path has
+// no descent and no wildcard or filter is applied to an object with two or
+// more members (a union lists its members, a child selects one).
+func (e *examiner) ordered() bool {
+	if e.orderK {
+		return e.order
+	}
+	e.orderK = true
+	e.order = orderDefined(e.spec, e.t)
+	return e.order
+}
+
+func orderDefined(spec gens.JPExpr, t *tree) bool {
+	if spec.HasFrag("desc") {
+		return false
+	}
+	if !t.multi {
+		return true
+	}
+	for i := 1; i < len(spec); i++ {
+		if k := spec[i].K; k != "wild" && k != "filter" {
+			continue
+		}
+		nodes := []pathref.Hit{{Value: t.simple}}
+		if i > 1 {
+			nodes = pathref.SelectSpec(spec[:i], t.simple, pathref.Variants[0]).Hits
+		}
+		for _, n := range nodes {
+			if m, ok := n.Value.(map[string]any); ok && len(m) > 1 {
+				return false
+			}
+		}
+	}
+	return true
+}
+
 func (e *examiner) referenceLocs() [][]string {
 	if !e.locsK {
 		e.locsK = true
-		e.locs = refLocs(e.spec, e.t.simple, e.gs, e.order)
+		e.locs = refLocs(e.spec, e.t.simple, e.gs, e.ordered())
 		if e.locs == nil {
 			e.c.Add("location_comparison_skipped_get_disagrees_with_pathref", 1)
 		}
@@ -398,7 +435,6 @@ func examine(c *core.Ctx, spec gens.JPExpr, x jp.Expr, t *tree, o *only) (out []
 		return nil, false
 	}
 	e.gs, e.gsc = g.vals, g.vals
-	e.order = !t.multi && !spec.HasFrag("desc")
 	for _, r := range t.reprs {
 		if o.wantsRepr(r.Name) {
 			e.repr(r)
@@ -469,7 +505,10 @@ func (e *examiner) repr(r gens.Repr) {
 	}
 	// Get on this representation against Get on the simple form
 	if !simple && o.wantsEval("Get") {
-		if k := cmpLists(canonAll(gr), e.gsc, e.order); k != "" {
+		if k := cmpLists(canonAll(gr), e.gsc, false); k != "" || len(gr) > 1 && e.ordered() && cmpLists(canonAll(gr), e.gsc, true) != "" {
+			if k == "" {
+				k = "order"
+			}
 			e.add("Get", r.Name, k, "Get on the simple form: "+showAll(e.gs), showAll(gr))
 		}
 	}
@@ -510,7 +549,7 @@ func (e *examiner) repr(r gens.Repr) {
 				k = "wrong-elements" // equal values but not the same nodes
 			}
 			e.add("GetNodes", r.Name, k, "Get: "+showAll(gr), showAll(gn.vals))
-		case e.order && len(gr) > 1 && cmpLists(canonAll(gn.vals), canonAll(gr), true) != "":
+		case len(gr) > 1 && e.ordered() && cmpLists(canonAll(gn.vals), canonAll(gr), true) != "":
 			e.add("GetNodes", r.Name, "order", "Get: "+showAll(gr), showAll(gn.vals))
 		}
 	}
@@ -552,7 +591,7 @@ func (e *examiner) first(eval, repr string, ff evalRes, gr []any, identity bool)
 		}
 		if !member {
 			e.add(eval, repr, "wrong-elements", "a member of "+showAll(gr), gens.Show(gens.Canon(ff.one)))
-		} else if e.order && !same(ff.one, gr[0]) {
+		} else if !same(ff.one, gr[0]) && e.ordered() {
 			e.add(eval, repr, "order", "Get[0] = "+gens.Show(gens.Canon(gr[0])), gens.Show(gens.Canon(ff.one)))
 		}
 	}
@@ -779,9 +818,21 @@ func shrink(c *core.Ctx, spec gens.JPExpr, t *tree, f finding, depth int) (gens.
 	return spec, t, f, false
 }
 
-func signature(spec gens.JPExpr, t *tree, f finding) string {
+// filterBlamed decides, for an unshrinkable case that ends in a $-rooted
+// filter, whether the filter is at fault: it is not when the same case with a
+// wildcard in its place fails in the same way.
+func filterBlamed(c *core.Ctx, spec gens.JPExpr, t *tree, f finding) bool {
+	if len(spec) <= 2 || !spec[len(spec)-1].RootFilter() {
+		return false
+	}
+	alt := append(append(gens.JPExpr{}, spec[:len(spec)-1]...), gens.JPSimple("wild"))
+	_, same := reproduces(c, alt, t, f)
+	return !same
+}
+
+func signature(spec gens.JPExpr, t *tree, f finding, filterBlamed bool) string {
 	f1 := spec[1]
-	if last := spec[len(spec)-1]; len(spec) > 2 && last.RootFilter() {
+	if last := spec[len(spec)-1]; len(spec) > 2 && last.RootFilter() && filterBlamed {
 		// a $-rooted filter cannot be re-rooted by the shrinker: such cases are
 		// keyed by the filter, whatever precedes it
 		return core.Sig(f.eval, "filter-with-$", gens.ReprClass(f.repr), "pos=last", "-", f.kind)
@@ -828,7 +879,7 @@ func report(c *core.Ctx, spec gens.JPExpr, t *tree, fs []finding) {
 		x := s.Build()
 		cs := caseT{Path: s, Text: x.String(), Data: st.encoded(), Repr: g.repr, Eval: g.eval, Kind: g.kind}
 		size := len(s)*1000 + len(st.show()) + reprPenalty(g.repr)
-		c.Fail(signature(s, st, g), cs, size, g.exp, g.obs+"   ["+g.eval+" of "+x.String()+" on "+g.repr+" form of "+st.show()+"]")
+		c.Fail(signature(s, st, g, filterBlamed(c, s, st, g)), cs, size, g.exp, g.obs+"   ["+g.eval+" of "+x.String()+" on "+g.repr+" form of "+st.show()+"]")
 	}
 }
 
@@ -947,7 +998,7 @@ func replay(c *core.Ctx, raw json.RawMessage) {
 		fs, _ := examine(c, cs.Path, cs.Path.Build(), t, &only{eval: cs.Eval, family: gens.ReprFamily(cs.Repr)})
 		for _, f := range fs {
 			if f.eval == cs.Eval && (cs.Kind == "" || f.kind == cs.Kind) {
-				c.Fail(signature(cs.Path, t, f), cs, len(cs.Path), f.exp, f.obs)
+				c.Fail(signature(cs.Path, t, f, filterBlamed(c, cs.Path, t, f)), cs, len(cs.Path), f.exp, f.obs)
 				return
 			}
 		}
